@@ -289,6 +289,18 @@ func (pl *opPlan) genValues(t *kernel.Tape, env *kernel.Env) (awk bool) {
 			a = a2
 			switch p.In {
 			case "path":
+				// a value that itself contains the literal text following its placeholder in the same segment
+				if tail := literalTail(pl.op.Path, p.Name); tail != "" && t.Bool(3, "value-contains-the-literal-tail") {
+					switch t.Choose(3, "tail-position") {
+					case 0:
+						s = s + tail + "x"
+					case 1:
+						s = s + tail
+					default:
+						s = "k" + tail + s
+					}
+					a = true
+				}
 				if s == "." || s == ".." {
 					s += "x"
 				}
@@ -331,6 +343,19 @@ func (pl *opPlan) genValues(t *kernel.Tape, env *kernel.Env) (awk bool) {
 	return awk
 }
 
+// literalTail is the literal text between {name} and the end of its path segment in the template.
+func literalTail(tmpl, name string) string {
+	i := strings.Index(tmpl, "{"+name+"}")
+	if i < 0 {
+		return ""
+	}
+	rest := tmpl[i+len(name)+2:]
+	if j := strings.IndexAny(rest, "/{"); j >= 0 {
+		rest = rest[:j]
+	}
+	return rest
+}
+
 // WriteToRequest sets exactly the generated values, formatted the way generated clients do.
 func (pl *opPlan) WriteToRequest(req runtime.ClientRequest, _ strfmt.Registry) error {
 	for _, v := range pl.vals {
@@ -353,7 +378,7 @@ func (pl *opPlan) WriteToRequest(req runtime.ClientRequest, _ strfmt.Registry) e
 			texts = []string{swag.FormatBool(v.b)}
 		case p.Type == "array":
 			if p.CollectionFormat == "multi" {
-				texts = v.arr
+				texts = append([]string(nil), v.arr...) // the request gets its own copy: what it does to it must not move the oracle's
 			} else {
 				texts = []string{swag.JoinByFormat(v.arr, p.CollectionFormat)[0]}
 			}
